@@ -130,6 +130,7 @@ impl<D> DatumDefinitionCollection<D> {
 
 impl RecordDefinition<NativeDatumDetails> {
 //@fn truc/src/record/definition/mod.rs :: impl RecordDefinition<NativeDatumDetails> :: fn fmt_variant_representation
+//@ attr #[verifier::loop_isolation(false)]
 //@ vis pub
 //@ requires
         valid_ids(variant.data@, datum_definitions.data@),
